@@ -750,7 +750,12 @@ pub fn kinematics(rng: &mut Rng, g: &GraphSpec, sig: &[Vec<isize>], max_offset_e
     let masses: Vec<Option<f64>> = (0..ne)
         .map(|e| {
             if g.massive[e] {
-                Some(rng.int(1, 24) as f64 / 8.0)
+                // mostly k/8; occasionally very light or very heavy (still exact in the oracle)
+                match rng.below(40) {
+                    0 => Some(2f64.powi(-20)),
+                    1 => Some(2f64.powi(12)),
+                    _ => Some(rng.int(1, 24) as f64 / 8.0),
+                }
             } else if zero_mass_some && rng.chance(0.3) {
                 Some(0.0)
             } else {
@@ -954,12 +959,15 @@ pub fn draw_lambda_coord(rng: &mut Rng, hostile: bool) -> f64 {
     let r = rng.f();
     if r < 0.5 {
         rng.fo()
-    } else if r < 0.7 {
+    } else if r < 0.66 {
         10f64.powf(-rng.range(0.0, 12.0))
-    } else if r < 0.9 {
+    } else if r < 0.82 {
         1.0 - 10f64.powf(-rng.range(0.0, 12.0))
-    } else {
+    } else if r < 0.9 {
         rng.range(0.4, 0.6)
+    } else {
+        // the very ends of (0,1)
+        *rng.pick(&[1.0 - 2f64.powi(-53), 1.0 - 1e-15, 1e-18, 1e-30, 2f64.powi(-53), 1e-100])
     }
 }
 
@@ -1167,8 +1175,10 @@ pub fn any_graph(rng: &mut Rng, emax: usize) -> (GraphSpec, String) {
         _ => {
             // all-massive, every weight above D/2: always inside the region
             g.massive = vec![true; ne];
-            g.weights = (0..ne).map(|_| d as f64 / 2.0 + rng.int(1, 128) as f64 / 64.0).collect();
-            desc.push_str("+all_massive_heavy");
+            let very = rng.chance(0.25);
+            let lo = if rng.chance(0.5) { 128 } else { 1024 };
+            g.weights = (0..ne).map(|_| d as f64 / 2.0 + if very { rng.int(lo, 1600) as f64 / 64.0 } else { rng.int(1, 128) as f64 / 64.0 }).collect();
+            desc.push_str(if very { "+all_massive_very_heavy" } else { "+all_massive_heavy" });
         }
     }
     (g, desc)
